@@ -143,6 +143,17 @@ def gen_ops(tier, rng):
             obs, fcst = fcst, obs
         for m in rng.sample([x for x in TRANSLATED + HAND if x != "rmsf"], 4) + ["stderror"]:
             yield "metric.offset", "det %s mean %s %s" % (m, xvec(obs), xvec(fcst))
+    # the same data in other units: variables of small magnitude (precipitation rate in kg m-2 s-1, mixing ratios:
+    # values of order 1e-6, variances of order 1e-12) and of large magnitude (pressure in Pa, heights in mm). The
+    # definitions do not care; an absolute tolerance somewhere in the code does (seeded change C05g: np.isclose(var, 0)
+    # as the zero-variance guard turned every score of a small-magnitude variable into NaN)
+    for _ in range(40 if tier == "quick" else 800):
+        L = rng.choice([3, 6, 10, 25])
+        scale = rng.choice([1e-6, 1e-6, 2.5e-5, 1e5])
+        obs = [round(rng.gauss(5, 3), 1) * scale for _ in range(L)]
+        fcst = [o + round(rng.gauss(0, 1), 1) * scale for o in obs]
+        for m in rng.sample([x for x in TRANSLATED + HAND if x not in ("rmsf", "leps")], 3) + [rng.choice(["corr", "kge", "kendallcorr", "rankcorr", "nsec"])]:
+            yield "metric.units", "det %s mean %s %s" % (m, xvec(obs), xvec(fcst))
     for _ in range(60 if tier == "quick" else 1000):
         L = rng.choice([1, 2, 3, 5, 9])
         obs = [rng.choice(GRID) + (0.75 if rng.random() < 0.5 else 0) for _ in range(L)]
